@@ -304,6 +304,7 @@ Section SparseInv.
   Variable maxsz : N.
   Variable store : store_t.
   Hypothesis Hs : store_sound H store.
+  Hypothesis Hnoeof : forall k i, store k i <> SFail code_bare_eof.   (* the store's errors are never io.EOF itself *)
   Let nullid : id := snd (new_null_chunk H maxsz).
   Let n := length idx.
   Let Lb := length blob.
@@ -421,7 +422,9 @@ Section SparseInv.
              split; [discriminate|]. split; [exact Htodo|]. split; [exact Ed|exact Hcov].
         * inversion E; subst s'. left. unfold finish. rewrite Eq. constructor; cbn; auto.
           -- apply set_nth_Forall; [exact It|apply idle_ok; exact Hvq].
-          -- constructor; [destruct rq; exact I|exact Ig].
+          -- constructor; [|exact Ig]. destruct rq; try exact I. cbn.
+             destruct (N.eqb c code_bare_eof) eqn:Ec; [|exact I].
+             apply N.eqb_eq in Ec. subst c. exfalso. exact (Hnoeof _ _ Est).
       + (* WriteAt *)
         inversion Htodo as [|? ? Hi Htodo']; subst. inversion E; subst s'. clear E.
         pose proof (nth_row i Hi) as Hn.
@@ -601,16 +604,16 @@ End SparseInv.
 (* ---------- theorems over all schedules ---------- *)
 
 Theorem sparse_inv H idx blob maxsz store sched :
-  index_describes H idx blob -> store_sound H store ->
+  index_describes H idx blob -> store_sound H store -> (forall k i, store k i <> SFail code_bare_eof) ->
   let nullid := snd (new_null_chunk H maxsz) in
   loader_inv idx nullid blob (run (step idx nullid store) sched (init idx)) \/ Collision H.
 Proof.
-  intros Hd Hs nullid.
+  intros Hd Hs Hne nullid.
   pose (Inv := fun s => SInv H idx blob maxsz s \/ Collision H).
   assert (Hrun : Inv (run (step idx nullid store) sched (init idx))).
   { apply (inv_run (step idx nullid store) Inv).
-    - intros s l s' [Hi|C] E; [|right; exact C]. exact (step_inv H idx blob Hd maxsz store Hs s l s' Hi E).
-    - exact (init_inv H idx blob Hd maxsz). }
+    - intros s l s' [Hi|C] E; [|right; exact C]. exact (step_inv H idx blob Hd maxsz store Hs Hne s l s' Hi E).
+    - exact (init_inv H idx blob Hd maxsz store Hne). }
   destruct Hrun as [[Il Id Is _ Ig]|C]; [left|right; exact C]. constructor; assumption.
 Qed.
 
@@ -618,15 +621,15 @@ Qed.
    WriteState calls, any store faults, any sequence of restarts the code can perform (kills of the running process
    included) -- returned exactly blob[off, off+n), n = min(len, L-off). *)
 Theorem sparse_read_sound H idx blob maxsz store sched off len d eof :
-  index_describes H idx blob -> store_sound H store ->
+  index_describes H idx blob -> store_sound H store -> (forall k i, store k i <> SFail code_bare_eof) ->
   let nullid := snd (new_null_chunk H maxsz) in
   In (RqRead off len, ROk d eof) (s_log (run (step idx nullid store) sched (init idx))) ->
   off + Z.of_nat len < two64 ->
   (0 <= off /\ d = slice blob (Z.to_nat off) (length d) /\
    length d = Nat.min len (length blob - Z.to_nat off) /\ eof = (length d <? len)%nat) \/ Collision H.
 Proof.
-  intros Hd Hs nullid Hin Hb.
-  destruct (sparse_inv H idx blob maxsz store sched Hd Hs) as [[_ _ _ Hlog]|C]; [left|right; exact C].
+  intros Hd Hs Hne nullid Hin Hb.
+  destruct (sparse_inv H idx blob maxsz store sched Hd Hs Hne) as [[_ _ _ Hlog]|C]; [left|right; exact C].
   rewrite Forall_forall in Hlog. exact (Hlog _ Hin Hb).
 Qed.
 
@@ -642,7 +645,7 @@ Theorem sparse_failed_load idx nullid store s k th i todo rq q c :
     s_done s' = s_done s /\ s_file s' = s_file s /\ s_calls s' = S (s_calls s) /\
     s_mutex s' = set_nth (s_mutex s) i false /\
     nth_error (s_threads s') k = Some (mkthread q None) /\
-    s_log s' = (rq, match rq with RqRead _ _ => RErr (XStore c) | _ => RDone end) :: s_log s.
+    s_log s' = (rq, match rq with RqRead _ _ => read_error (XStore c) | _ => RDone end) :: s_log s.
 Proof.
   intros Hc Hk Hpc Hq Hst. cbn [step]. rewrite Hc. unfold tstep. rewrite Hk, Hpc, Hq, Hst.
   eexists. split; [reflexivity|]. unfold finish. cbn [queue]. rewrite Hq. cbn.
@@ -736,6 +739,7 @@ Section Retry.
   Variable nullid : id.
   Variable store : store_t.
   Hypothesis Ht : tiles_from 0 idx.
+  Hypothesis Hnoeof : forall k i, store k i <> SFail code_bare_eof.
   Notation fetched := (fetched_ok idx store).
 
   Lemma fetched_mono fl fl' i : incl fl fl' -> fetched fl i -> fetched fl' i.
@@ -826,7 +830,9 @@ Section Retry.
              ++ eapply Forall_impl; [|exact Rl]. intros e. apply read_backed_mono. exact Hincl.
         * inversion E; subst s'. unfold finish. rewrite Eq. constructor; cbn; auto.
           -- apply set_nth_Forall; [exact Rt|exact I].
-          -- constructor; [destruct rq; exact I|exact Rl].
+          -- constructor; [|exact Rl]. destruct rq; try exact I. cbn.
+             destruct (N.eqb c code_bare_eof) eqn:Ec; [|exact I].
+             apply N.eqb_eq in Ec. subst c. exfalso. exact (Hnoeof _ _ Est).
       + inversion E; subst s'. constructor; cbn; auto.
         apply set_nth_Forall; [exact Rt|]. unfold thread_r. cbn [pc queue]. rewrite Eq. split; [discriminate|]. split; [exact Hp|].
         destruct rq as [off len| |]; auto. intros H1 H2 H3 j r Hn Ho.
@@ -890,17 +896,17 @@ End Retry.
    GetChunk call for it succeeded and was written (in this or an earlier incarnation).  A failed load is never such a
    call: after a failure the range is served only after a successful retry, otherwise the read fails. *)
 Theorem sparse_retry idx nullid store sched off len d eof :
-  tiles_from 0 idx ->
+  tiles_from 0 idx -> (forall k i, store k i <> SFail code_bare_eof) ->
   let s := run (step idx nullid store) sched (init idx) in
   In (RqRead off len, ROk d eof) (s_log s) ->
   0 <= off -> (1 <= len)%nat -> off + Z.of_nat len < two64 ->
   forall j r, nth_error idx j = Some r -> row_overlaps r off len ->
     r_id r = nullid \/ exists c d', In (c, j) (s_fetched s) /\ store c (r_id r) = SData d'.
 Proof.
-  intros Ht s Hin H1 H2 H3 j r Hn Ho.
+  intros Ht Hne s Hin H1 H2 H3 j r Hn Ho.
   assert (Hr : RInv idx nullid store s).
   { apply (inv_run (step idx nullid store) (RInv idx nullid store)).
-    - intros s0 l s1. apply rstep. exact Ht.
+    - intros s0 l s1. apply rstep; assumption.
     - constructor; cbn.
       + intros i Hi. rewrite nth_repeat_false in Hi. discriminate.
       + intros b Hb i Hi. inversion Hb; subst b. rewrite nth_repeat_false in Hi. discriminate.
